@@ -430,6 +430,10 @@ func writeComputedFieldExpression(w *formatting.IndentedWriter, expression dsl.E
 					common.WriteBlockBody(w, func() {
 						dims := dsl.ToGeneralizedType(arrType).Dimensionality.(*dsl.Array).Dimensions
 						for i, d := range *dims {
+							if d.Name == nil {
+								// not every dimension needs to have a name
+								continue
+							}
 							fmt.Fprintf(w, "if dim_name == \"%s\"\n", *d.Name)
 							w.Indented(func() {
 								fmt.Fprintf(w, "dim = %d;\n", i)
